@@ -138,13 +138,13 @@ def run(ctx):
             unregistered = {n.id for n in walk(root)}
             Node.store.clear()
         ids_before = set(Node.store.keys()) | unregistered
-        if rng.random() < 0.3:
-            # an earlier copy of the same node is alive: ids must be fresh with respect to it as well
-            earlier = root.copy()
-            ids_before |= {n.id for n in walk(earlier)}
-            KEEP.append(earlier)
         case = {"tree": before}
         try:
+            if rng.random() < 0.3:
+                # an earlier copy of the same node is alive: ids must be fresh with respect to it as well
+                earlier = root.copy()
+                ids_before |= {n.id for n in walk(earlier)}
+                KEEP.append(earlier)
             cp = root.copy()
             after_orig = otree(root, tagmap)
             copy_t = otree(cp, tagmap)
